@@ -16,11 +16,14 @@ CONSTANTS
   LatchError = TRUE
   CountAccepted = TRUE
   KeepFirstError = FALSE
+  LatchOn = "err"
   Modes = {"never", "whole", "prefix"}
   Pieces = {0, 1}
   GivenFile = ""
   MaxCalls = 1
   LaterModes = {"never", "whole", "prefix"}
   FreshPerCall = TRUE
+  ShareChoices = {FALSE}
+  PerWriterWrapper = FALSE
 INVARIANTS TypeOK CountExact NoWriteAfterFailure PrefixDelivered FirstError NoFailEqualsString FailsAtCapacity StringNeverPanics CallStartsFresh HealthyAfterFailure
 CHECK_DEADLOCK FALSE
